@@ -27,7 +27,7 @@ from harness.core import gq, gbool, gstr, glist, gopt
 from harness.props import alloc_common as ac
 from harness.props import c10_sys as cs
 
-HEADER = """From FrameModel Require Import Num.QcTac Geometry.Rect Cases.Cmp Alloc.Alloc Cases.CmpAlloc Glb.Extract Cases.CmpC10 Glb.System Cases.CmpC10Sys.
+HEADER = """From FrameModel Require Import Num.QcTac Geometry.Rect Cases.Cmp Alloc.Alloc Cases.CmpAlloc Glb.Extract Cases.CmpC10 Glb.System Glb.SystemFacts Cases.CmpC10Sys.
 Open Scope Qc_scope."""
 
 TOL = F(1, 10 ** 6)      # the tolerance of the direct oracle / SolOK monitor ("within solver tolerance")
@@ -514,8 +514,14 @@ def gen_run(rng):
             "max_iter": rng.choice([1, 1, 2])}
 
 
-def run_run(case):
-    """A real glbfloor run; every optimize_allocation / extract_solution call is recorded."""
+class _ProbeDone(Exception):
+    pass
+
+
+def run_run(case, probe=None):
+    """A real glbfloor run; every optimize_allocation / extract_solution call is recorded.
+    probe = (iteration index, function(model, die, cells, threshold, original solve) -> result): at that optimisation
+    the function is called instead of the solver, its result is returned as obs['probe'] and the run is abandoned."""
     from frame.geometry.geometry import Rectangle
     from frame.netlist.netlist import Netlist
     from frame.die.die import Die
@@ -523,12 +529,45 @@ def run_run(case):
     import copy
     Rectangle.undefine_epsilon()
     iters = []
-    o_opt, o_ext = opt.optimize_allocation, opt.extract_solution
+    o_opt, o_ext, o_solve = opt.optimize_allocation, opt.extract_solution, opt.solve_and_extract_solution
+    probed = {}
+
+    def w_solve(model, die, cells, threshold, *a, **kw):
+        it = iters[-1]
+        try:
+            it["mods_before"] = [module_obs(m) for m in die.netlist.modules]
+            it["t"] = threshold
+            it["die_rect"] = fr.rect_obs(die.bounding_box)
+            it["cap"] = cs.capture(model, len(cells))
+            it["areas"] = {m.name: m.area() for m in die.netlist.modules}
+            it["pow32"] = [[m.area(), m.area() ** (3 / 2)] for m in die.netlist.modules if not m.is_hard and m.area() > 0]
+            it["edges"] = [[m.name for m in e.modules] for e in die.netlist.edges]
+        except Exception as e:                      # the capture must never change what the run does
+            it["cap_error"] = f"{type(e).__name__}: {e}"
+        if probe is not None and len(iters) - 1 == probe[0]:
+            probed["result"] = probe[1](model, die, cells, threshold, o_solve)
+            raise _ProbeDone()
+        return o_solve(model, die, cells, threshold, *a, **kw)
 
     def w_opt(die, allocation, *a, **kw):
         iters.append({"in_cells": ac.alloc_obs(allocation)["cells"],
                       "eps": Rectangle.distance_epsilon(), "aeps": Rectangle.area_epsilon()})
-        return o_opt(die, allocation, *a, **kw)
+        it = iters[-1]
+        try:
+            it["mods_before"] = [module_obs(m) for m in die.netlist.modules]
+            it["t"] = a[1] if len(a) > 1 else kw.get("threshold")
+            it["die_rect"] = fr.rect_obs(die.bounding_box)
+            it["areas"] = {m.name: m.area() for m in die.netlist.modules}
+            it["pow32"] = [[m.area(), m.area() ** (3 / 2)] for m in die.netlist.modules if not m.is_hard and m.area() > 0]
+            it["edges"] = [[m.name for m in e.modules] for e in die.netlist.edges]
+        except Exception as e:
+            it["cap_error"] = f"{type(e).__name__}: {e}"
+        try:
+            return o_opt(die, allocation, *a, **kw)
+        except (AssertionError, ZeroDivisionError, KeyError) as e:
+            if "cap" not in it:
+                it["build_raised"] = type(e).__name__       # raised while the system was being built
+            raise
 
     def w_ext(model, die, cells, threshold):
         it = iters[-1]
@@ -548,7 +587,7 @@ def run_run(case):
         it["out"] = {"cells": ac.alloc_obs(out[1])["cells"], "mods": [module_obs(m) for m in out[0].netlist.modules]}
         return out
 
-    opt.optimize_allocation, opt.extract_solution = w_opt, w_ext
+    opt.optimize_allocation, opt.extract_solution, opt.solve_and_extract_solution = w_opt, w_ext, w_solve
     try:
         try:
             nl = Netlist(copy.deepcopy(case["netlist"]))
@@ -564,6 +603,9 @@ def run_run(case):
         mods0 = [module_obs(m) for m in nl.modules]
         try:
             d2, alloc = opt.glbfloor(die, float(case["t"]), float(case["alpha"]), max_iter=case["max_iter"])
+        except _ProbeDone:
+            return {"status": "probed", "probe": probed.get("result"), "iters": iters, "mods0": mods0,
+                    "die": [die.width, die.height]}
         except Exception as e:          # the optimiser did not return (solver failure, rejected allocation ...)
             return {"status": "raised", "err": f"{type(e).__name__}: {str(e)[:160]}", "iters": iters, "mods0": mods0,
                     "die": [die.width, die.height]}
@@ -571,7 +613,7 @@ def run_run(case):
                 "cells": ac.alloc_obs(alloc)["cells"], "mods": [module_obs(m) for m in d2.netlist.modules],
                 "fixed_regions": [fr.rect_obs(r) for r in die.fixed_regions]}
     finally:
-        opt.optimize_allocation, opt.extract_solution = o_opt, o_ext
+        opt.optimize_allocation, opt.extract_solution, opt.solve_and_extract_solution = o_opt, o_ext, o_solve
         Rectangle.undefine_epsilon()
 
 
@@ -666,6 +708,14 @@ def to_coq(case, obs):
     # real run: every recorded iteration is replayed through the model
     parts = []
     for it in obs.get("iters", []):
+        if "cap_error" in it:
+            parts.append("false")
+        elif "cap" in it and "mods_before" in it:
+            p = cs.run_system_expr(it)
+            if p:
+                parts.append(p)
+        elif it.get("build_raised") and "mods_before" in it:
+            parts.append(cs.run_raises_expr(it))
         if "rows" not in it:
             continue                # the solver raised before extract_solution was reached
         mods = it["mods_before"]
@@ -850,11 +900,11 @@ def oracle(case, obs):
         return cs.oracle_system(case, obs)
     # real run
     if obs["status"] != "returned":
-        return None
+        return cs.oracle_run_systems(case, obs)
     if not obs["iters"]:
         return None
     r = check_result(obs["die"], obs["mods0"], obs["mods"], obs["cells"], TOL)
-    return f"{r[0]}: {r[1]}" if r else None
+    return f"{r[0]}: {r[1]}" if r else cs.oracle_run_systems(case, obs)
 
 
 def failure_key(case, why):
@@ -923,7 +973,8 @@ def run(ctx, out, replay=None):
     tempfile.tempdir = str(tmp)           # GEKKO(remote=False) creates its model directory with tempfile.mkdtemp
     try:
         quick = ctx.quick()
-        n_ext, n_rec, n_fix, n_run = (600, 150, 150, 14) if quick else (6000, 1500, 1500, 120)
+        n_ext, n_rec, n_fix, n_run = (600, 150, 60, 11) if quick else (6000, 1500, 600, 100)
+        n_sys, n_tie = (110, 10) if quick else (1500, 100)
         out.rule = ("(a) synthetic: guillotine partitions of a die (2-7 cells, shuffled, sometimes sparse/overlapping), "
                     "1-8 modules mixing soft / movable hard (trunk + 0-3 branches, flip or not) / fixed (1-2 cells), solver "
                     "values satisfying the contract, with noise in fixed cells, exactly at / one ulp / 2^-30 next to 1 - t, "
@@ -938,7 +989,9 @@ def run(ctx, out, replay=None):
             cases.append(fr.unjson(replay["case"]))
         cases += fr.load_corpus("C10")
         rng = ctx.rng
-        cases += [gen_run(rng) for _ in range(n_run)]
+        cases += [cs.decorate_run(rng, gen_run(rng)) for _ in range(n_run)]
+        cases += [cs.gen_run_tie(rng) for _ in range(n_tie)]
+        cases += [cs.gen_system_case(rng) for _ in range(n_sys)]
         cases += [gen_extract(rng) for _ in range(n_ext)]
         cases += [gen_recenter(rng) for _ in range(n_rec)]
         cases += [gen_fixrule(rng) for _ in range(n_fix)]
